@@ -2010,8 +2010,17 @@ class CodeGenerator(NodeVisitor):
         old_ctx_name = self.temporary_identifier()
         saved_ctx = frame.eval_ctx.save()
         self.writeline(f"{old_ctx_name} = context.eval_ctx.save()")
+        # revert on every exit: the context of a cached imported module
+        # outlives a render that fails inside the block
+        self.writeline("try:")
+        self.indent()
+        self.writeline("pass")
         self.visit_EvalContextModifier(node, frame)
         for child in node.body:
             self.visit(child, frame)
         frame.eval_ctx.revert(saved_ctx)
+        self.outdent()
+        self.writeline("finally:")
+        self.indent()
         self.writeline(f"context.eval_ctx.revert({old_ctx_name})")
+        self.outdent()
